@@ -8,6 +8,7 @@ import (
 	"github.com/glebziz/fs_db"
 	"github.com/glebziz/fs_db/internal/model"
 	"github.com/glebziz/fs_db/internal/utils/ptr"
+	"github.com/glebziz/fs_db/internal/utils/vhook"
 )
 
 func (u *UseCase) Get(ctx context.Context, key string) (io.ReadCloser, error) {
@@ -32,11 +33,13 @@ func (u *UseCase) Get(ctx context.Context, key string) (io.ReadCloser, error) {
 	if err != nil {
 		return nil, fmt.Errorf("file repository get: %w", err)
 	}
+	vhook.AtID("store.get.lookup", f.ContentId)
 
 	cf, err := u.cfRepo.Get(ctx, f.ContentId)
 	if err != nil {
 		return nil, fmt.Errorf("content file repository get: %w", err)
 	}
+	vhook.AtID("store.get.cf", f.ContentId)
 
 	content, err := u.cRepo.Get(ctx, cf.Path())
 	if err != nil {
